@@ -25,6 +25,7 @@ type LRecip struct {
 	Labels  []string   `json:"labels,omitempty"`  // order as returned
 	Fail    bool       `json:"fail,omitempty"`    // injected wrap failure
 	XKey    int        `json:"xkey"`              // sim-owned recipients wrap to this X25519 fixture key
+	Big     int        `json:"big,omitempty"`     // sim-owned: additionally emits an unknown stanza with a body of this many bytes
 }
 
 type C11Plan struct {
@@ -38,6 +39,7 @@ type simPlain struct {
 	inner age.Recipient
 	fail  bool
 	calls *int
+	big   int
 }
 
 func (s *simPlain) Wrap(fk []byte) ([]*age.Stanza, error) {
@@ -45,7 +47,11 @@ func (s *simPlain) Wrap(fk []byte) ([]*age.Stanza, error) {
 	if s.fail {
 		return nil, errors.New("sim: injected wrap failure")
 	}
-	return s.inner.Wrap(fk)
+	st, err := s.inner.Wrap(fk)
+	if err == nil && s.big > 0 {
+		st = append(st, &age.Stanza{Type: "sim-big", Args: []string{"x"}, Body: make([]byte, s.big)})
+	}
+	return st, err
 }
 
 type simLabeled struct {
@@ -68,20 +74,20 @@ func (C11) Title() string        { return "label sets and wrap failures at every
 func (C11) NewPlan() interface{} { return &C11Plan{} }
 func (C11) Runs(tier string) int {
 	if tier == "thorough" {
-		return 3000000
+		return 1500000
 	}
-	return 150000
+	return 60000
 }
 
 func (C11) Meta() core.Meta {
 	return core.Meta{
 		Level: "exploration",
-		Rule: "a case = list of 1..6 recipients, each native (X25519, ssh-ed25519, ssh-rsa: no labels; scrypt: fresh random label) or sim-owned with an interface variant (Recipient only / RecipientWithLabels returning nil / empty / a list in some order, possibly repeating a label) and optionally an injected wrap failure; the differing or failing recipient is placed at every position. Oracle: Encrypt succeeds iff all label sets are equal and no wrap failed; on refusal the destination saw zero Write calls; on success every real recipient decrypts. Non-trivial = at least two recipients or a failure; distinct = distinct recipient-list skeletons.",
+		Rule: "a case = list of 1..6 recipients (occasionally 40..70, or with recipients emitting stanzas of 3..70 KB so that several KiB of header exist before the refusal), each native (X25519, ssh-ed25519, ssh-rsa: no labels; scrypt: fresh random label) or sim-owned with an interface variant (Recipient only / RecipientWithLabels returning nil / empty / a list in some order, possibly repeating a label) and optionally an injected wrap failure; the differing or failing recipient is placed at every position. Oracle: Encrypt succeeds iff all label sets are equal and no wrap failed; on refusal the destination saw zero Write calls; on success every real recipient decrypts. Non-trivial = at least two recipients or a failure; distinct = distinct recipient-list skeletons.",
 		Assumptions: []string{"label lists may repeat a label; where the set reading and the sorted-list reading of 'same labels' disagree nothing is asserted about acceptance (only that a refusal wrote nothing)", "plugin recipients' labels are exercised in the C16 engine, not here"},
 		Real:        []string{"filippo.io/age Encrypt (label comparison, wrap loop, header marshal)", "native recipients"},
 		Stub:        []string{"sim-owned recipients with chosen label lists / injected wrap failure", "destination (write-call counter)", "crypto/rand.Reader (tape)"},
 		FaultKinds:  []string{"fault.wrap_failure"},
-		Probes:      []string{"probe.equal_sets_different_order", "probe.proper_subset", "probe.disjoint", "probe.empty_vs_absent", "probe.scrypt_with_other", "probe.two_scrypt", "probe.refused_labels", "probe.refused_wrap_failure", "probe.accepted", "probe.fail_at_last_position", "probe.differ_at_last_position", "probe.repeated_label_same_multiset", "probe.repeated_label_sets_differ", "probe.repeated_label_ambiguous"},
+		Probes:      []string{"probe.equal_sets_different_order", "probe.proper_subset", "probe.disjoint", "probe.empty_vs_absent", "probe.scrypt_with_other", "probe.two_scrypt", "probe.refused_labels", "probe.refused_wrap_failure", "probe.accepted", "probe.fail_at_last_position", "probe.differ_at_last_position", "probe.repeated_label_same_multiset", "probe.repeated_label_sets_differ", "probe.repeated_label_ambiguous", "probe.refused_after_more_than_4KiB_of_header"},
 	}
 }
 
@@ -118,8 +124,29 @@ func (C11) Generate(r *core.RNG, tier string, idx uint64) interface{} {
 		}
 		p.Recips = append(p.Recips, lr)
 	}
+	// sometimes a large header is produced before the perturbed recipient is reached: a big stanza from a
+	// sim-owned recipient, or a long list (anything written early would then have left a buffer)
+	if r.Chance(1, 4) {
+		for i := range p.Recips {
+			if p.Recips[i].Native == nil && r.Chance(1, 2) {
+				p.Recips[i].Big = r.Pick(3000, 5000, 9000, 70000)
+			}
+		}
+	}
+	if r.Chance(1, 20) {
+		extra := r.Range(40, 70)
+		for i := 0; i < extra; i++ {
+			c := p.Recips[r.Intn(len(p.Recips))]
+			c.XKey = r.Intn(world.NX25519)
+			p.Recips = append(p.Recips, c)
+		}
+		n = len(p.Recips)
+	}
 	// perturb one position
 	pos := r.Intn(n)
+	if n > 4 && r.Bool() {
+		pos = n - 1 - r.Intn(3)
+	}
 	switch r.Intn(10) {
 	case 8: // a label repeated inside one list: same multiset everywhere (must be accepted) ...
 		if len(base) > 0 {
@@ -229,6 +256,7 @@ func (e C11) Execute(plan interface{}, c *core.Ctx) *core.Verdict {
 	anyFail := false
 	var sets, pure []string
 	skeleton := ""
+	bigBefore := false
 	for i, lr := range p.Recips {
 		var set string
 		switch {
@@ -240,7 +268,7 @@ func (e C11) Execute(plan interface{}, c *core.Ctx) *core.Verdict {
 			skeleton += lr.Native.T + ","
 		default:
 			inner := world.Recipient(world.Key{T: "x", K: lr.XKey % world.NX25519})
-			sp := simPlain{inner: inner, fail: lr.Fail, calls: &calls[i]}
+			sp := simPlain{inner: inner, fail: lr.Fail, calls: &calls[i], big: lr.Big}
 			switch lr.Variant {
 			case "plain":
 				recips = append(recips, &sp)
@@ -258,6 +286,10 @@ func (e C11) Execute(plan interface{}, c *core.Ctx) *core.Verdict {
 				pure = append(pure, "")
 			}
 			skeleton += fmt.Sprintf("%s%v%v,", lr.Variant, lr.Labels, lr.Fail)
+			if lr.Big > 0 {
+				skeleton += fmt.Sprintf("big%d,", lr.Big)
+				bigBefore = true
+			}
 			if lr.Fail {
 				anyFail = true
 			}
@@ -359,6 +391,9 @@ func (e C11) Execute(plan interface{}, c *core.Ctx) *core.Verdict {
 	}
 	if ambiguous {
 		c.Stats.Inc("probe.repeated_label_ambiguous")
+	}
+	if err != nil && (bigBefore || len(p.Recips) > 40) {
+		c.Stats.Inc("probe.refused_after_more_than_4KiB_of_header")
 	}
 	if err != nil {
 		if expectOK && !ambiguous {
